@@ -21,7 +21,8 @@ RESERVED = set(IMPL['properties'])
 
 TEXTS = ['a', 'Allegro', 'x < y & z > w', '"quoted" \'single\'', ' lead', 'trail ', 'two  spaces', 'tab\tin', 'line\nbreak',
          '\U0001d11e clef', 'café ǝ', ']]>', '&amp;', '<tag>', '  ', 'ｆｕｌｌ', 'a&#10;b', 'é', '0', '1.5',
-         'ls\u2028sep', 'ps\u2029sep', 'nel\x85x', '\ufeffbom', 'zw\u200bsp', 'nb\u00a0sp', 'soft\xadhy', 'x\u2028', '\u2029']
+         'ls\u2028sep', 'ps\u2029sep', 'nel\x85x', '\ufeffbom', 'zw\u200bsp', 'nb\u00a0sp', 'soft\xadhy', 'x\u2028', '\u2029',
+         '\u00a0lead', 'trail\u2003', '\u3000both\u00a0', '\u00a0']
 
 _valid_pool = {}
 
@@ -400,11 +401,60 @@ REPEATED = {k: _repeated(k) for k in TREE}
 HARD = [c for k in TREE if k in CLASSES_OF and (CLASS_OF_TYPE[k] == 'wild' or REPEATED[k]) for c in CLASSES_OF[k]]
 
 
-def doc_case(drv, rnd, cls=None, depth=2, mixed_chk=False, mutate=True, copy=False, dots=True, roots=1, reuse=False, sandwich=False):
+REPEATED_CLASSES = [c for k in TREE if k in CLASSES_OF and REPEATED[k] for c in CLASSES_OF[k]]
+
+
+def scratch_case(w, rnd, nid):
+    """an empty element of a hard content model, a few same-name adds (explicit forward= indices included),
+    then the shortcut surface on one of those names, compared with the explicit one through the model"""
+    cls = rnd.choice(REPEATED_CLASSES if REPEATED_CLASSES and rnd.random() < 0.6 else HARD)
+    k = type_key(cls.TYPE)
+    i = nid[0]; nid[0] += 1
+    m, r = w.newe(i, cls, True, pick_value(cls, rnd, True), pick_attrs(cls, rnd, True))
+    if r != 'ok' or m != 'ok':
+        return
+    names = REPEATED.get(k) or ALPHA[k]
+    sub = [rnd.choice(names) for _ in range(rnd.choice([1, 1, 2]))]
+    for _ in range(rnd.randint(2, 5)):
+        cn = rnd.choice(sub)
+        ccls = BY_NAME.get(cn)
+        if ccls is None:
+            continue
+        j = nid[0]; nid[0] += 1
+        m0, r0 = w.newe(j, ccls, True, pick_value(ccls, rnd, True), pick_attrs(ccls, rnd, True, 0))
+        if r0 == 'ok' and m0 == 'ok':
+            w.add(i, j, rnd.choice([None, None, 0, 1, 1, 2, -1]))
+    w.obs(i)
+    for _ in range(rnd.randint(1, 3)):
+        cn = rnd.choice(sub)
+        ccls = BY_NAME.get(cn)
+        if ccls is None:
+            continue
+        key = 'xml_' + cn.replace('-', '_')
+        nid[0] += 2
+        q = rnd.random()
+        if q < 0.45:
+            w.dotx(i, key, nid[0] - 1, pick_value(ccls, rnd, True))
+        elif q < 0.7:
+            m1, r1 = w.newe(nid[0] - 2, ccls, True, pick_value(ccls, rnd, True), [])
+            if r1 == 'ok' and m1 == 'ok':
+                w.dotx(i, key, nid[0] - 1, inst=nid[0] - 2)
+        elif q < 0.85:
+            w.dotx(i, key, nid[0] - 1, None)
+        w.getx(i, key)
+        w.obs(i)
+        w.tostr(i, rnd.random() < 0.3)
+
+
+def doc_case(drv, rnd, cls=None, depth=2, mixed_chk=False, mutate=True, copy=False, dots=True, roots=1, reuse=False, sandwich=False, scratch=False):
     """one generated document + a few mutations + serialisations; returns the World"""
     w = World(drv)
     cls = cls or rnd.choice(ALL)
     nid = [1]
+    if scratch:
+        nid = [50000]
+        scratch_case(w, rnd, nid)
+        nid = [1]
     root = build_tree(w, rnd, cls, depth, nid, True, True, mixed_chk)
     if root is None:
         return w
@@ -553,6 +603,22 @@ def doc_case(drv, rnd, cls=None, depth=2, mixed_chk=False, mutate=True, copy=Fal
                     if r0 == 'ok' and m0 == 'ok':
                         w.add(i, j, rnd.choice([None, None, 0, 1, 1, 2, -1, 3]) if REPEATED.get(k) or rnd.random() < 0.3 else None)
                         w.obs(i)
+                        if dots and rnd.random() < 0.5:
+                            # the shortcut on a name that now may sit in several leaves: which child does it address?
+                            key = 'xml_' + cn.replace('-', '_')
+                            nid[0] += 2
+                            q = rnd.random()
+                            if q < 0.5:
+                                w.dotx(i, key, nid[0] - 1, pick_value(ccls, rnd, True))
+                            elif q < 0.75:
+                                m1, r1 = w.newe(nid[0] - 2, ccls, True, pick_value(ccls, rnd, True), [])
+                                if r1 == 'ok' and m1 == 'ok':
+                                    w.dotx(i, key, nid[0] - 1, inst=nid[0] - 2)
+                            else:
+                                w.dotx(i, key, nid[0] - 1, None)
+                            w.getx(i, key)
+                            w.obs(i)
+                            w.tostr(i)
                         ids[:] = list(w.objs)
             elif r < 0.89 and reuse:
                 # an existing instance (detached earlier, or still attached elsewhere) is added to another element
